@@ -49,6 +49,10 @@ func newResolved(s *Schema) *Resolved {
 
 // detectDraft inspects the raw JSON to determine the schema version.
 func detectDraft(s *Schema) draft {
+	if s == nil {
+		// A nil schema is reported by checkStructure.
+		return draft2020
+	}
 	// Check explicit $schema declaration
 	switch s.Schema {
 	case draft7SchemaVersion, draft7SecSchemaVersion:
